@@ -821,3 +821,94 @@ def enumerate_release(desc):
     if bad:
         res.update(status="violation", detail=bad, mechanism="result-retained", witness=witness)
     return res
+
+
+# ----------------------------------------------------------------------------------------------- the stale check under preemption
+def run_stale_fanin(k, W, seed, older_first=True, hold="quiescent"):
+    """A stored value z = f(a, b) over two sources; z is newer than a and OLDER than b, so it is out of date. The worker that asks for a's
+    modified time (the older one) is held at the k-th instruction it executes afterwards in the stale check's bookkeeping (caching.py and the
+    graph runner) while the other worker asks for b's and runs its whole bookkeeping. Whatever the interleaving, the run rebuilds z."""
+    from . import ir as irmod, regmodel
+
+    ref = irmod.ref
+    rp = regmodel.RegPlan()
+    ir = rp.ir
+    a = ir.add("source", fname="src")
+    b = ir.add("source", fname="src")
+    for s_ in (a, b):
+        rp.role[s_.id] = "psrc"
+        rp.normalising[s_.id] = False
+    z = ir.add("call", args=[ref(a.id), ref(b.id)], fname="fn0")
+    rp.role[z.id] = "stored"
+    rp.normalising[z.id] = False
+    ir.meta["family"] = "preempt:stale_fanin"
+    S = regmodel.Session(rp, seed)
+    res, exc = S.run(None, W=1, hang_watch=False)
+    if exc is not None:
+        raise exc
+    newer = b if older_first else a
+    older = a if older_first else b
+    S.src_version[newer.id] += 1
+    S.stores[newer.id].set_content(irmod.Val(("src", newer.id), S.src_version[newer.id]))
+    exp = S.expect(None, None)
+    OP = OnePreemption(k, 1, hold=hold, files=OnePreemption.FILES + ("caching.py",))
+    H = S.H
+    older_name, newer_name = S.store_name[older.id], S.store_name[newer.id]
+
+    def hook(kind, st):
+        if kind != "mt":
+            return
+        if st.name == older_name:
+            OP.arm()
+        elif st.name == newer_name:
+            OP.wait_for_ta(1.0)
+
+    with OP:
+        H.store_hook = hook
+        try:
+            res, exc = S.run(None, W=W, hang_watch=False)
+        finally:
+            H.store_hook = None
+    return S, exp, OP, exc
+
+
+def enumerate_stale_fanin(desc):
+    import hashlib
+
+    W, of = desc["W"], desc.get("older_first", True)
+
+    def oracle(S, exp, exc):
+        if exc is not None:
+            return f"run raised {exc!r}"
+        d = S.check_counts(exp)
+        if d:
+            return f"the stored value is older than one of its two sources, but: {d}"
+        return None
+
+    S, exp, OP, exc = run_stale_fanin(None, W, desc["seed"], of)
+    N = OP.count
+    if N == 0:
+        return {"status": "inconclusive", "detail": "stale-check preemption: the worker that queried the older source executed no monitored instruction"}
+    bad = oracle(S, exp, exc)
+    counters = {"preempt_stale_cases": 1, "preempt_stale_positions": 0, "preempt_stale_holds_other_completed": 0}
+    points = set()
+    if bad is None:
+        for k in range(1, N + 1):
+            for hold in ("others", "quiescent"):
+                S, exp, OP, exc = run_stale_fanin(k, W, desc["seed"] + k, of, hold=hold)
+                counters["preempt_stale_positions"] += 1
+                if OP.held_at is not None:
+                    points.add(f"{OP.held_at[0]}@{OP.held_at[1]}")
+                    counters["preempt_stale_holds_other_completed"] += int(not OP.hold_expired)
+                bad = oracle(S, exp, exc)
+                if bad:
+                    bad = (f"[stale check of a fan-in: the worker that asked for the OLDER source's modified time held at its instruction #{k} of {N} ({OP.held_at}) "
+                           f"while the other source's query completed; stale-check workers={W}] {bad}")
+                    break
+            if bad:
+                break
+    res = {"status": "ok", "counters": counters, "sets": {"preempt_stale_points_held": sorted(points)}, "nontrivial": counters["preempt_stale_holds_other_completed"] > 0,
+           "sig": hashlib.sha1(f"stalefanin|{W}|{of}".encode()).hexdigest()[:16], "sample": {"desc": desc, "positions_N": N}}
+    if bad:
+        res.update(status="violation", detail=bad, mechanism="rebuild-set")
+    return res
